@@ -645,10 +645,10 @@ def run(tier, seed):
     for cid, clause in jc["rejected"]:
         res.violation(dict(where="find_instance_crop_size", stage="", kind=clause), clause, byid[int(cid)], str(byid[int(cid)]))
     # ---- measured coverage ------------------------------------------------------------------------------
-    nofit = sum(1 for c in cases for e in c["ev"] if e["c"] == 3 and (e["fit"] == 0 or e["res"] >= 64) and c["cfg"]["ds"] != "fn_int")
+    nofit = sum(1 for c in cases for e in c["ev"] if e["c"] == 3 and (e["fit"] == 0 or e["res"] >= 16) and c["cfg"]["ds"] != "fn_int")
     nev = sum(len(c["ev"]) for c in cases)
     res.clause("events", nev)
-    res.clause("events_with_discarded_fit(residual>=0.25px or undecodable)", nofit)
+    res.clause("events_with_discarded_fit(residual>=1/16px or undecodable)", nofit)
     res.clause("gray_vs_rgb_pairs", sum(1 for c in cases if c["gev"]))
     res.clause("geometric_augmentations_measured", sum(1 for c in cases for e in c["ev"] if e["st"] == "AugmentGeo" and e["fit"] == 1 and (abs(e["M"][1]) > 40 or abs(e["M"][0] - 4096) > 40)))
     res.clause("intensity_augmentations", sum(1 for c in cases for e in c["ev"] if e["st"] == "AugmentInt"))
@@ -667,7 +667,7 @@ def run(tier, seed):
         res.sample(dict(cfg={k: v for k, v in c["cfg"].items() if k not in ("kp0", "pipe")}, labels=c["cfg"]["kp0"][:3],
                         stages=[[e["st"], e["h"], e["w"], e["M"], e["t"], e["kp"][:2]] for e in c["ev"]][:6]))
     res.assumptions += [
-        "the content map is measured by least squares over pixels that are pure image content (B channel = 1), excluding a rim of max(1, 1.5/scale) original pixels; fits with residual >= 0.25 px are discarded and counted",
+        "the content map is measured by least squares over pixels that are pure image content (B channel = 1), excluding a rim of max(1, 1.5/scale) original pixels; fits with residual >= 1/16 px are discarded and counted",
         "Registered is judged in the max norm with tolerance 1 + 1/16 output pixel; content/keypoint conformance to the as-coded stage arithmetic within 1/4 px resp. 3/64 px",
         "intensity augmentation on decodable runs uses magnitudes <= 1e-4 at p = 1 (the keypoint path does not depend on the magnitude); full-strength intensity runs check keypoint bit-identity and sizes only",
         "kornia.core.Tensor shim (harness/shim.py); np_chunks=False (in-memory cache)",
